@@ -272,7 +272,15 @@ def check_params(s):
         ci = P.cls(cls)
         for name in ("loc", "scale", "scale_diag", "logits", "probs"):
             r = P.resolve_method(ci, name)
-            if r is None or not r[0].is_property(name) or cls == "MultiCategorical":
+            if r is None or not r[0].is_property(name):
+                continue
+            if cls == "MultiCategorical":
+                # the flat read-back is the concatenation of the components' like-named attribute, in component order, on the last axis
+                nzm = Normalizer(b)
+                pm = one(s.paths(b, cls, name), f"{cls}.{name}")
+                want = s.ref(b, f"jnp.concatenate(tuple(d.{name} for d in self.distribution), axis=-1)", {"self": self_})
+                s.eq("C15.5", f"{cls}.{name}", nzm, pm.ret, want, f"`{name}` is the concatenation of every component's `{name}` along the last axis", s.loc(cls, name),
+                     key=f"accessor-{name}", necessary_for="flat and sequence parameterisations describe the same product law (logits are not probs)")
                 continue
             pp = [q for q in live(s.paths(b, cls, name))]
             base = ("attr", self_, "distribution")
